@@ -172,3 +172,57 @@ _codec_check(
     "exploration: 10^4-10^6 (prior, incoming) pairs per run each decided exactly by comparison with a fresh decode; histories producing the prior state are sampled from four families.",
     "element lifetimes are monitored by ASan/LSan on the containers' own allocations",
     "differential decode (prior-state object vs fresh object) under ASan/LSan")
+
+
+# ------------------------------------------------------------------ life engine (C12, C13, C15)
+def gen_life(prop, tier, seed):
+    import typegen
+    d = os.path.join(BUILD, "gen", "life")
+    srcs = typegen.generate_handles(d)
+    return d, srcs
+
+
+ENGINE_KIND["life"] = ("C++ harness (ASan+UBSan): shadow-model interpreters over operation histories (bounded-exhaustive + random) with a lifetime registry of tracked element "
+                       "types, counting handle policy, instrumented reader/writer for out-of-band handle transfer")
+_life = dict(engine="life", flavour="asan", gen=gen_life, sources=["engines/life/main.cpp"])
+
+CHECKS["C12"] = dict(
+    _life, level="exploration",
+    rule=("history = sequence of operations over 2 interacting Variant<TrackedA, TrackedB(convertible from CSrc), int, string> objects: value/lvalue/converting/cross-type assignment and construction, "
+          "copy/move assign (incl. self), assign EmptyVariant, Become(-2..5), copy/move construct, destroy+construct, mutate via get, IfAnyOf Get/Take/Swap/Call, each constructing operation also with an element "
+          "constructor that throws on its n-th construction. After every operation a shadow model {index, value} is compared through index/empty/Visit/get<T>/get<I>/is<T> and a lifetime registry is audited "
+          "(live elements = non-empty tracked alternatives, no double destruction, no use of a dead object, nothing alive at the end). Exhaustive: every history of length <= 3 (quick) / 4 (thorough) over the "
+          "98-operation alphabet; then random histories of length <= 40. distinct = enumerated histories + hashed random ones; non-trivial = 2+ operations."),
+    floor={"quick": 100000, "thorough": 1000000}, require_counters=["c12_operations_executed", "c12_injected_constructor_exceptions", "c12_random_histories"],
+    technique="shadow-model interpreter + lifetime registry over bounded-exhaustive and random operation histories, under ASan/UBSan",
+    level_text="exploration with an exhaustive core: all operation histories up to length 3/4 over a 98-operation alphabet are enumerated and each step is decided exactly against a shadow model and a lifetime registry; longer histories are sampled.",
+    level_note="element lifetime is observed through tracked element types (registry of live addresses + magic word); ASan watches the same executions",
+    assumptions=["after an operation whose element constructor throws, only the property's invariant is asserted (empty or exactly one live element of the indexed type, nothing leaked), values are not predicted"],
+    exhaustive_counter="c12_exhaustive_len2_histories_total")
+
+CHECKS["C13"] = dict(
+    _life, level="exploration",
+    rule=("history = sequence of operations over 2 Optional<Tracked>, an Entry<Tracked,5>, 2 Result<E,Tracked>, a Status<Tracked> and Optional<int> sources: value/lvalue assignment, clear, take, copy/move assign "
+          "(incl. self and cross-type Optional<int>), copy/move construct, destroy+construct (value / InPlace / error), entry<->optional transfers, error assignment, Status moves. After every operation the state "
+          "model is compared through empty/bool/has_value/has_error/error()/get and the lifetime registry is audited; moving from an object by assignment must leave it empty. Exhaustive to length 3/4 over the "
+          "77-operation alphabet, random to length 40. Comparisons: all 6 x 6 operand states x 18 operators for int/int, int/long, string, tracked and Entry operands against the total order 'empty < values'. "
+          "Messages: all 19 ErrorStatus enumerators through Status<void> and Status<int>."),
+    floor={"quick": 100000, "thorough": 1000000}, require_counters=["c13_operations_executed", "c13_comparisons", "c13_error_messages", "c13_random_histories"],
+    technique="shadow-model interpreter + lifetime registry over bounded-exhaustive and random histories; exhaustive operand-state table for the 18 comparison operators",
+    level_text="exploration with an exhaustive core: all histories up to length 3/4 over a 77-operation alphabet, all operand-state pairs of every comparison operator, all ErrorStatus values; longer histories sampled.",
+    level_note="state after move *construction* is read back, not asserted (the property constrains move assignment only)",
+    assumptions=[], exhaustive_counter="c13_exhaustive_len2_histories_total")
+
+CHECKS["C15"] = dict(
+    _life, level="exploration",
+    rule=("(a) transfer: values of 14 handle-bearing types (handles in structure members, vectors, arrays, pairs, optionals, variants, maps, logical buffers, table entries incl. a table nested in a table entry, "
+          "three handle policies with U8/U32/U64-class type tags, empty handles) are written through LogWriter and BoundedWriter<LogWriter> returning references drawn from {-1,0,1,63,64,127,128,...,2^63-1,-2,-64,-65,-129}; "
+          "oracle: PushHandle log == handles of the value in encounter order, each once; bytes == reference encoding with exactly the returned references; on read GetHandle sees exactly those references in order and "
+          "the values round-trip; a corrupted type tag gives UnexpectedHandleType; a resolver error is returned unchanged. (b) ownership: every history of length <= 4/5 over 3 UniqueHandles with a counting policy "
+          "(construct, move-assign incl. self, move-construct, release, close, destroy, assign temporary / empty), random to length 40: each resource closed exactly once when its owner drops it, never after "
+          "release or while still owned; real descriptors through UniqueFileHandle checked with fcntl."),
+    floor={"quick": 100000, "thorough": 1000000}, require_counters=["c15_operations_executed", "c15_handles_pushed", "c15_values_read_back", "c15_corrupted_tags", "c15_resolver_errors_injected", "c15_real_fd_cases"],
+    technique="call-log oracle on instrumented reader/writer + counting handle policy over bounded-exhaustive ownership histories, under ASan/UBSan",
+    level_text="exploration with an exhaustive core: all ownership histories up to length 4/5 over a 30-operation alphabet; handle-bearing values, returned references and corruptions are sampled and each case decided exactly from the call logs.",
+    level_note="handle-capable readers/writers shipped with libnop do not exist; the documented PushHandle/GetHandle interface is implemented by the harness' LogWriter/LogReader",
+    assumptions=[], exhaustive_counter="c15_exhaustive_len2_histories_total")
